@@ -60,4 +60,16 @@ var props = []Prop{
 			{Name: "grpc-faults", Engine: "grpcsim", Bin: "ov-cmd", Quick: 2000, Thorough: 100000, Knobs: map[string]string{"faults": "on"}, Timeout: 60 * time.Second},
 		},
 	},
+	{
+		ID:    "C16",
+		Level: "exploration",
+		Rule: "Three seeded scenario families on a simulated disk. consistent: acyclic module layouts (with/without go.mod, nested go.mod, 2-8 files in nested directories, equal basenames with different contents, data files with implicit/explicit decoders, the same file under several spellings, diamonds; main named absolutely or relative to a real cwd inside/outside the tree): the result must equal the value of the files the documented rules resolve to (built by inlining, data files evaluated alone on a fresh context) and every content read in the operation log must lie below the importing script's module root. adversarial: one import string built from . .. ... whitespace, tabs, newlines, absolute-looking tails and secret paths: only confinement of content reads and absence of secret markers in value/error are judged. cyclic: self/2..5-cycles through several spellings plus acyclic controls, evaluated inside a synctest bubble: a quiescent bubble with the task unfinished is a hang verdict, no wall clock involved. Non-trivial = >=2 content reads (>=2 files for cyclic); distinct = distinct (family/class, reads, outcome).",
+		Components: map[string][]string{"real": {"syntax.Compile/EvaluateExpr, compilePackage, importLocalFile, findRootFromModule, fileValue", "pkg/importcache, pkg/ctxrootcache, tools.FileExists"}, "stub": {"disk: aaverif/simfs", "process cwd: real empty directories below the worker's cwd, entered with os.Chdir"}},
+		Assume:     []string{"the disk is not mutated during a run (the property does not promise snapshot isolation)", "Stat of <ancestor>/go.mod while walking up is the documented root search and is legal", "remote and Go-module imports are out of scope"},
+		Batches: []Batch{
+			{Name: "consistent", Engine: "imports", Quick: 2000, Thorough: 200000, Knobs: map[string]string{"mode": "consistent"}, Timeout: 60 * time.Second},
+			{Name: "adversarial", Engine: "imports", Quick: 2500, Thorough: 300000, Knobs: map[string]string{"mode": "adversarial"}, Timeout: 60 * time.Second},
+			{Name: "cyclic", Engine: "imports", Quick: 600, Thorough: 40000, Knobs: map[string]string{"mode": "cyclic"}, Timeout: 60 * time.Second},
+		},
+	},
 }
